@@ -12,7 +12,7 @@ from harness import world as W
 
 def make_world(seed, p):
     rnd = random.Random('world/%s' % seed)
-    unis = [W.Universe(rnd, p) for _ in range(p.get('nuni', 2))]
+    unis = [W.Universe(rnd, p, i) for i in range(p.get('nuni', 2))]
     w = W.World(unis, 0)
     return rnd, w
 
